@@ -2415,7 +2415,7 @@ def subset_glyphs(self, s):
     if table.Format in (1, 3):
         baselines = {
             glyph: table.BaselineValues.get(glyph, table.DefaultBaseline)
-            for glyph in s.glyphs
+            for glyph in sorted(s.glyphs)
         }
         if len(baselines) > 0:
             mostCommon, _cnt = Counter(baselines.values()).most_common(1)[0]
@@ -2597,7 +2597,8 @@ def subset_glyphs(self, s):
         return prop.DefaultProperties != 0
     elif prop.Format == 1:
         prop.Properties = {
-            g: prop.Properties.get(g, prop.DefaultProperties) for g in s.glyphs
+            g: prop.Properties.get(g, prop.DefaultProperties)
+            for g in sorted(s.glyphs)
         }
         mostCommon, _cnt = Counter(prop.Properties.values()).most_common(1)[0]
         prop.DefaultProperties = mostCommon
